@@ -135,6 +135,10 @@ def descriptors() -> dict[str, NodeV]:
     d["DROP VIEW named like the current database"] = node("Drop", "stmt", kind=Const("VIEW"), this=table("CUR_DB"))
     d["DROP SCHEMA named like the current database"] = node("Drop", "stmt", kind=Const("SCHEMA"), this=table(None, "CUR_DB"))
     d["DROP SCHEMA of the same name in another database"] = node("Drop", "stmt", kind=Const("SCHEMA"), this=table(None, "CUR_SCHEMA", "D2"))
+    # with IF EXISTS the pinned parser puts the schema's name in `this` and its database in `db`
+    d["DROP SCHEMA IF EXISTS current"] = node("Drop", "stmt", kind=Const("SCHEMA"), exists=Const(True), this=table("CUR_SCHEMA"))
+    d["DROP SCHEMA IF EXISTS of the same name in another database"] = node("Drop", "stmt", kind=Const("SCHEMA"), exists=Const(True),
+                                                                          this=table("CUR_SCHEMA", "D2"))
     d["DROP SCHEMA current"] = node("Drop", "stmt", kind=Const("SCHEMA"), this=table(None, "CUR_SCHEMA"))
     d["DROP DATABASE current"] = node("Drop", "stmt", kind=Const("DATABASE"), this=table("CUR_DB"))
     d["ALTER TABLE ADD COLUMN"] = node("Alter", "stmt", kind=Const("TABLE"), this=table("T"),
